@@ -39,9 +39,8 @@ CLAUSES = {
     1: ("representation", None), 2: ("value", None), 3: ("value", "result_not_wellformed_sparse"),
     4: ("value", "mixed_fills_not_rejected"), 5: ("representation", "model_differs_from_spec_in_domain"),
     11: ("value", "gcxs_joiner_axis_None"), 12: ("value", "extract_input_not_COO"),
-    13: ("value", "D5_negative_offset"), 14: ("value", "D5_nonzero_fill"),
     15: ("value", "diagonal_nonsquare"), 16: ("value", "diagonal_negative_axis"),
-    17: ("value", "D14_nonzero_fill"),
+    18: ("value", "concatenate_axis_None_DOK_member"), 19: ("value", "stack_0d_non_COO_member"),
 }
 
 
@@ -378,6 +377,10 @@ def campaign(build, tier, seed, report, budget=1):
     rng = random.Random(seed)
     viol = []
     tags = {}
+    # the judge is not a dependency of Props/C09.vo: (re)build it against the regenerated Gen/ files
+    ok, out = build.make(["Corr/C09Judge.vo"], timeout=900)
+    if not ok:
+        raise vlib.CoqEvalError("Corr/C09Judge.vo does not build:\n" + out[-1500:])
 
     def tag(t):
         tags[t] = tags.get(t, 0) + 1
@@ -493,6 +496,16 @@ def campaign(build, tier, seed, report, budget=1):
             spec_vs_numpy += 1
             viol.append({"property": "C09", "op": c["op"], "kind": "representation", "clause": "spec_differs_from_numpy",
                          "case": c, "impl": r["res"], "replay_py": replay_extract(c)})
+
+    # within a class the check reports the first violation: put informative, small cases first
+    def weight(v):
+        c = v.get("case", {})
+        specs = c.get("members") or ([c["x"]] if "x" in c else [])
+        nnz = sum(len(s["data"]) for s in specs)
+        size = sum(len(s["shape"]) + sum(s["shape"]) for s in specs)
+        exc = isinstance(v.get("impl"), dict) and v["impl"].get("k") == "exc"
+        return (0 if (nnz > 0 or exc) else 1, len(specs), size, nnz)
+    viol.sort(key=weight)
 
     cov = report["coverage"]
     cov["evaluations"] = len(jc) + len(ec) + len(sl)
